@@ -224,20 +224,20 @@ package bttest
 //@   inline
 
 // Read protocol (C06), see /verif/contracts/trusted/bttest_ifaces.spec: the epoch of the critical section in which
-// the current thread last read a row from the store, and the identity of that row object.
+// the current thread's last read of the store began. btIterating: an iteration over the rows is in progress (inside an
+// iterator callback).
 //@ ghostvar btReadEpoch epoch protocol
-//@ ghostvar btReadRow int protocol
+//@ ghostvar btIterating bool protocol
 
 //@ func (t *table) getOrCreateRow
 //@   property C01 C06
 //@   held t.mu r
-//@   modifies ghost(btReadEpoch), ghost(btReadRow)
+//@   modifies ghost(btReadEpoch)
 //@   ensures rowRep(result) && rowFresh(result)
 //@   ensures btReadEpoch == epoch
-//@   ensures btReadRow == obj(result)
 
 //@ func modifyCell
-//@   property C05
+//@   property C05 C12
 //@   requires c != nil
 //@   ensures result0 != nil
 //@   ensures result1 == nil ==> (result0 == c || fresh(result0))
@@ -286,6 +286,7 @@ package bttest
 // The clock field is never written after construction (frame of every loop body).
 //@ func (s *server) gcloop
 //@   property C16
+//@   requires !btIterating
 //@   requires s != nil && s.clock != nil
 //@   requires nolocks()
 //@   modifies *
